@@ -110,6 +110,8 @@ func (x *c02Run) parentRecord(p *c02Tok) (state string) {
 		}
 	}()
 	v := x.v
+	v.Probe.Tag("c02peek") // the harness's own reads are not operations of a revocation
+	defer v.Probe.Untag()
 	root := namespace.RootContext(context.Background())
 	nsObj := namespace.RootNamespace
 	if p.NS != "" {
@@ -894,6 +896,6 @@ func TestVerif_C02_NamespaceRoot(t *testing.T) {
 	r.Require("nsroot_outside_subtree_refused_on:secrets", 400)
 	r.Require("nsroot_outside_subtree_refused_on:auth", 100)
 	r.Require("nsroot_outside_subtree_refused_on:sys", 400)
-	r.Require("nsroot_in_own_subtree_handled", 300)
+	r.Require("nsroot_in_own_namespace_handled", 300)
 	r.Require("nsroot_in_descendant_namespace_handled", 60)
 }
